@@ -34,6 +34,10 @@ type H struct {
 	Filter  string `json:"filter,omitempty"`  // "", even, none
 	Panic   string `json:"panic,omitempty"`   // "", always, odd
 	Cancels bool   `json:"cancels,omitempty"` // synchronous only: cancels the publish context when it runs (async handlers dispatched before it may or may not run)
+	// Replay (bus with a store, handler without context): subscribed through
+	// SubscribeWithReplay on the empty log - a live subscription that also
+	// records its position; one handler pair per invocation like any other.
+	Replay bool `json:"replay,omitempty"`
 }
 
 type Pub struct {
@@ -150,6 +154,8 @@ func workload(c *Case, obs eventbus.Observability, ctxCheck func(ctx context.Con
 		if h.Ctx {
 			eventbus.SubscribeContext(bus, func(ctx context.Context, e Ev) { body(hi, ctx, e.ID) }, so...)
 			eventbus.SubscribeContext(bus, func(ctx context.Context, e BadEv) { body(hi, ctx, e.ID) }, so[:0]...)
+		} else if h.Replay && c.Store {
+			eventbus.SubscribeWithReplay(context.Background(), bus, fmt.Sprintf("c20-%d", hi), func(e Ev) { body(hi, nil, e.ID) }, so...)
 		} else {
 			eventbus.Subscribe(bus, func(e Ev) { body(hi, nil, e.ID) }, so...)
 		}
